@@ -129,6 +129,13 @@ impl Prop for C12 {
                     what: "19 chain / nesting shapes (operator chains, parentheses, lists, calls, conditionals, prefix chains, `not in` nests, maps) at sizes around 16, 32, 64, 128, 256, 512, 1024: round trip".into(),
                 },
                 Stage {
+                    name: "schedules".into(),
+                    len: super::c13::render_workloads().len() as u64,
+                    chunk: 1,
+                    timeout: Duration::from_secs(900),
+                    what: "a round trip through expr() racing a re-registration of an operator it renders (same precedence and associativity, another handler), under the controlled scheduler: all schedules with <= 2 (3) preemptions; every round trip must come out 'same'".into(),
+                },
+                Stage {
                     name: "mixed-associativity".into(),
                     len: MIXED.len() as u64,
                     chunk: 1,
@@ -187,6 +194,14 @@ impl Prop for C12 {
             return;
         }
         if stage == 4 {
+            let ws = super::c13::render_workloads();
+            for i in a..b {
+                out.at(i);
+                super::c13::check_workload(&ws[i as usize], tier.pick(2, 3), Duration::from_secs(tier.pick(60, 600)), out);
+            }
+            return;
+        }
+        if stage == 5 {
             for i in a..b {
                 out.at(i);
                 run_mixed(MIXED[i as usize], out);
@@ -224,6 +239,9 @@ impl Prop for C12 {
             return super::c03::deep_cases()[i as usize].key.clone();
         }
         if stage == 4 {
+            return super::c13::render_workloads()[i as usize].name.to_string();
+        }
+        if stage == 5 {
             return format!("{:?}", MIXED[i as usize]);
         }
         if stage == 2 {
